@@ -410,8 +410,16 @@ pub fn rank(args: &[String]) {
         let (dn, dd) = [(11u64, 10u64), (2, 1), (10, 1), (100, 1), (1000, 1)][rng.below(5) as usize];
         let mb = [0usize, 1, 10, 1000][rng.below(4) as usize];
         let n = [50u64, 500, 5000, max_n][rng.below(4) as usize].min(max_n);
-        let shape = (di / 4) % 6; // every (scale, shape) pair within 24 digests
+        let shape = (di / 4) % 8; // every (scale, shape) pair within 32 digests
         let read_every = [1u64, 7, 1000, u64::MAX][rng.below(4) as usize];
+        // shapes 6 / 7: chunks that rise (fall) from chunk to chunk but are shuffled inside, with a read after every chunk -
+        // every merge then sees a backlog that lies wholly beyond the centroids and is not sorted in itself
+        // these two shapes only degrade accuracy, not size: they need a compression at which 3 W is small, a long stream and
+        // chunks that are a sizeable fraction of it (a twentieth for K0 / K1, a fifth for K2 / K3, whose W is larger)
+        let (dn, dd, n) = if shape >= 6 { (1000u64, 1u64, max_n) } else { (dn, dd, n) };
+        let chunk = if shape >= 6 { if di % 4 < 2 { n / 20 } else { n / 5 } } else { 8 };
+        let (mb, read_every) = if shape >= 6 { (2 * chunk as usize, chunk) } else { (mb, read_every) };
+        let mut perm: Vec<u64> = (0..chunk).collect();
         let mut d = make(scale, dn as f64 / dd as f64, mb);
         let mut vals: Vec<i64> = vec![];
         out.put(&json!({"k":"hdr","s":"tdrank","scale":scale,"dn":dn,"dd":dd,"mb":mb,"shape":shape,"n":n}));
@@ -422,11 +430,22 @@ pub fn rank(args: &[String]) {
                 2 => { let s: i64 = (0..12).map(|_| rng.below(2001) as i64 - 1000).sum(); s }   // ~normal
                 3 => { let u = 1 + rng.below(10000); (16000 / u) as i64 }         // heavy tail (Pareto-like)
                 4 => [0i64, 1, 1000][rng.below(3) as usize],                      // 3-valued discrete (heavy ties)
-                _ => (i % 100) as i64 * 10,                                       // saw-tooth
+                5 => (i % 100) as i64 * 10,                                       // saw-tooth
+                _ => {
+                    if i % chunk == 0 {
+                        for j in (1..perm.len()).rev() {
+                            let r = rng.below(j as u64 + 1) as usize;
+                            perm.swap(j, r);
+                        }
+                    }
+                    let c = (i / chunk) as i64;
+                    let within = perm[(i % chunk) as usize] as i64;
+                    if shape == 6 { c * 1000 + within } else { -(c * 1000) + within }
+                }
             };
             dg!(&mut d, x => x.insert(v as f64));
             vals.push(v);
-            if read_every != u64::MAX && i % read_every == 0 {
+            if read_every != u64::MAX && (if shape >= 6 { (i + 1) % read_every == 0 } else { i % read_every == 0 }) {
                 dg!(&d, x => { x.quantile(0.5); });
             }
         }
